@@ -447,7 +447,8 @@ func (tf *transformer) transformAsm(args []string) ([]string, error) {
 						return nil, err
 					}
 					if flagDebugDir != "" {
-						debugArtifacts.GarbledFiles[basename] = content
+						// includeBuf is reused for the next header.
+						debugArtifacts.GarbledFiles[basename] = bytes.Clone(content)
 					}
 					newHeaderPaths[includePath] = newPath
 				}
@@ -485,7 +486,8 @@ func (tf *transformer) transformAsm(args []string) ([]string, error) {
 			newPaths = append(newPaths, path)
 		}
 		if flagDebugDir != "" {
-			debugArtifacts.GarbledFiles[basename] = content
+			// buf is reused for the next assembly file.
+			debugArtifacts.GarbledFiles[basename] = bytes.Clone(content)
 		}
 	}
 	if err := saveDebugArtifactsForPkg(tf.curPkg, debugCacheKindAsm, debugArtifacts); err != nil {
